@@ -59,7 +59,9 @@ def forest_defns(ncont, widths, rng=None, sample=None, header_names=None):
             xdoc.add_container(d, f"C{i}", entries, base=(f"C{parent[i]}" if i else ""), crit_list=(cs[i - 1] if i else ()), abstract=abst[i])
         if any(nest):
             xdoc.add_container(d, "N", [("p", "NP")], abstract=True)
-        bits = 0
+        # decoding may start at any container (root_container_name override), not only at the top of the forest
+        if ncont >= 3 and (len(defs) % 4) == 3:
+            d["root"] = "C1"
         defs.append(d)
     return defs
 
